@@ -12,6 +12,7 @@ for f in glob.glob(src + "/*"):
 R = "/tmp/mt/repo"
 def sh(cmd, **kw): return subprocess.run(cmd, shell=True, capture_output=True, text=True, **kw)
 sh(f"cd {R} && git checkout -q -- . && git clean -fdq -e target")
+sh(f"cd {R} && git checkout -q --detach $(git -C /repo rev-parse HEAD)")
 a = sh(f"cd {R} && git apply {dst}/patch.diff")
 assert a.returncode == 0, a.stderr
 t = sh(f"cd {R} && cargo test --workspace --no-fail-fast --offline 2>&1 | grep -E '^test result|FAILED|failed|error(\\[|:)'")
